@@ -137,7 +137,7 @@ def _run(v, tier, seed, quick):
 
     # ---------------------------------------------------------------------------------------- 1. model checking
     def model_check(tag, keys, vals, maxit, sorted_, ops, workers):
-        name = cfg("gen_MC_%s.cfg" % tag, "Spec", keys, vals, maxit, sorted_, ops, True, False, INVS, big=(tag == "3keys_single_table"))
+        name = cfg("gen_MC_%s.cfg" % tag, "Spec", keys, vals, maxit, sorted_, ops, True, False, INVS, big=(tag == "2keys_two_tables"))
         r = pool.run(workers, "MapAbs", name, FAM, coverage=True, timeout=3000, heap="6g", extra=NOTE)
         vlib.require_ok(r, "MapAbs model check %s" % tag)
         missing = [o for o in ops if r.coverage.get("a" + o, (0, 0))[1] == 0]
@@ -241,17 +241,17 @@ def _run(v, tier, seed, quick):
     # ---------------------------------------------------------------------------------------- schedule
     if quick:
         mc_jobs = [("3keys_single_table", [1, 2, 3], [1], 1, "none", MC_SINGLE, 2), ("2keys_two_tables", [1, 2], [1], 1, "none", MC_TWO, 2),
-                   ("sorted_key", [1, 2], [1, 2], 1, "key", MC_SORTED, 2), ("sorted_val", [1, 2], [1, 2], 1, "val", MC_SORTED, 2),
+                   ("sorted_key", [1, 2], [1, 2], 1, "key", MC_SORTED, 2), ("sorted_val", [1, 2], [1, 2], 1, "val", [o for o in MC_SORTED if o not in ("Swap", "RemoveAll", "Intersect", "RemoveLast")], 2),
                    ("loose_key", [1, 2], [1, 2], 1, "key", MC_LOOSE, 1), ("loose_val", [1, 2], [1, 2], 1, "val", MC_LOOSE, 1)]
         gen_jobs = [("single", [1, 2, 3], [1], 1, G_SINGLE), ("two", [1, 2], [1], 1, G_TWO), ("vals", [1, 2], [1, 2], 1, G_VALS), ("block", [1, 2, 3], [1], 1, G_BLOCK), ("twoit", [1, 2], [1], 2, G_TWOIT),
                     ("ordered", [1, 2, 3], [1, 2, 3], 0, G_ORDERED), ("bigargs", [1, 2], [1], 1, G_BIGARGS)]
-        sim_job = ("sim", 100, 30, 1)      # one worker: the behaviours are a function of VERIF_SEED
+        sim_job = ("sim", 60, 30, 1)      # one worker: the behaviours are a function of VERIF_SEED
         big_every = 16
         rnd = []   # (cls, bad, P, slack, runs, ops)
         for cls in (0, 1, 2):
             rnd += [(cls, 0, 0, 0, 12 if cls == 0 else 8, 300), (cls, 1, 0, 2, 12 if cls == 0 else 8, 300), (cls, cls % 2, 253, (cls + 1) % 4, 10, 300), (cls, (cls + 1) % 2, 253, (cls + 3) % 4, 10, 300)]
         rnd += [(0, 1, 65533, 1, 2, 150), (1, 0, 65533, 3, 1, 150), (2, 0, 65533, 2, 1, 150)]
-        rnd += [(0, 2, 0, 1, 8, 300), (0, 4, 0, 0, 8, 300), (0, 3, 0, 3, 6, 300), (1, 4, 0, 1, 6, 300), (2, 2, 0, 2, 6, 300), (1, 2, 253, 1, 6, 300), (2, 4, 253, 2, 6, 300), (0, 6, 253, 0, 6, 300)]
+        rnd += [(0, 2, 0, 1, 8, 300), (0, 4, 0, 0, 8, 300), (1, 4, 0, 1, 6, 300), (2, 2, 0, 2, 6, 300), (0, 6, 253, 0, 6, 300), (1 + seed % 2, 3 - seed % 2 if False else 2, 253, 1, 6, 300)]
     else:
         mc_jobs = [("3keys_single_table", [1, 2, 3], [1], 1, "none", MC_SINGLE, 2), ("3keys_1it", [1, 2, 3], [1], 1, "none", MC_OPS, 4), ("2keys_2vals_1it_all", [1, 2], [1, 2], 1, "none", [o for o in ALL_OPS if o != "ItCopy"], 4),
                    ("2keys_2its", [1, 2], [1], 2, "none", ["Put", "Remove", "MoveToBack", "MoveToBefore", "PutAtPosition", "Clear", "Swap", "MoveToTable", "ItNew", "ItNewAt", "ItAdv", "ItRet", "ItDel", "ItCopy"], 4)]
@@ -293,7 +293,7 @@ def _run(v, tier, seed, quick):
             if tag == "bigargs":
                 for h, slack in ((0, 0), (1, 1), (2, 2), (4, 3)): f_rep.append(ex.submit(replay, tag, bf, h, 0, slack))
                 for slack in (0, 1, 2, 3): f_rep.append(ex.submit(replay, tag, bf, (0, 2, 1, 4)[slack], 253, slack))
-                for slack in ((1, 2) if quick else (0, 1, 2, 3)): f_rep.append(ex.submit(replay, tag + "/%d" % (8 if quick else 2), subset(bf, tag, 8 if quick else 2), slack % 2, 65533, slack))
+                for slack in ((2,) if quick else (0, 1, 2, 3)): f_rep.append(ex.submit(replay, tag + "/%d" % (8 if quick else 2), subset(bf, tag, 8 if quick else 2), slack % 2, 65533, slack))
             elif tag == "ordered":
                 for cls in (1, 2):
                     for bad, slack in (((0, 1), (1, 2), (0, 0)) if quick else [(h, sl) for h in (0, 1) for sl in (0, 1, 2, 3)]): f_rep.append(ex.submit(replay, tag, bf, bad, 0, slack, cls))
@@ -301,17 +301,17 @@ def _run(v, tier, seed, quick):
                     f_rep.append(ex.submit(replay, tag, bf, 2 if cls == 1 else 4, 0, 2, cls)); f_rep.append(ex.submit(replay, tag, bf, 4 if cls == 1 else 2, 0, 1, cls))
             elif tag == "block":
                 for P in (253,):
-                    for slack in (0, 1, 2, 3): f_rep.append(ex.submit(replay, tag, bf, slack % 2, P, slack))
+                    for slack in (0, 1, 2, 3): f_rep.append(ex.submit(replay, tag, bf, (0, 2, 1, 4)[slack], P, slack))
                     if not quick:
                         for slack in (0, 1, 2, 3): f_rep.append(ex.submit(replay, tag, bf, (slack + 1) % 2, P, slack))
                 sub = subset(bf, tag, big_every)
                 for slack in ((1, 3) if quick else (0, 1, 2, 3)): f_rep.append(ex.submit(replay, tag + "/%d" % big_every, sub, (slack // 2) % 2, 65533, slack))
-                f_rep.append(ex.submit(replay, tag, bf, 0, 0, 0)); f_rep.append(ex.submit(replay, tag, bf, 2, 253, 1)); f_rep.append(ex.submit(replay, tag, bf, 4, 253, 3))
+                if not quick: f_rep.append(ex.submit(replay, tag, bf, 0, 0, 0)); f_rep.append(ex.submit(replay, tag, bf, 2, 253, 1)); f_rep.append(ex.submit(replay, tag, bf, 4, 253, 3))
             else:
                 for bad, slack in (((0, 0), (1, 1)) if quick else [(h, sl) for h in (0, 1) for sl in (0, 1, 2, 3)]): f_rep.append(ex.submit(replay, tag, bf, bad, 0, slack))
                 # adversarial hash layouts: boundary hash codes, the key whose default hash code is the guard value, codes colliding modulo the table size
-                for h, slack in (((2, 1), (4, 0), (3, 2)) if quick or tag.endswith("_big") else [(h, sl) for h in (2, 3, 4, 6) for sl in (0, 1, 2)]): f_rep.append(ex.submit(replay, tag, bf, h, 0, slack))
-                f_rep.append(ex.submit(replay, tag, bf, 1, 253, 1))     # most behaviours are cut at a call that is not applicable next to a block; the rest still counts
+                for h, slack in ({"single": ((2, 1), (3, 2)), "two": ((4, 0), (2, 2)), "vals": ((4, 1), (3, 0)), "twoit": ((2, 0), (4, 2)), "sim": ((2, 1), (4, 0), (3, 2))}.get(tag, ((2, 1), (4, 0))) if quick or tag.endswith("_big") else [(h, sl) for h in (2, 3, 4, 6) for sl in (0, 1, 2)]): f_rep.append(ex.submit(replay, tag, bf, h, 0, slack))
+                if not (quick and tag == "single"): f_rep.append(ex.submit(replay, tag, bf, 1, 253, 1))     # most behaviours are cut at a call that is not applicable next to a block; the rest still counts
                 if tag in ("twoit", "two"): f_rep.append(ex.submit(replay, tag + "/%d" % big_every, subset(bf, tag, big_every), 0, 65533, 2))
         for f in f_mc:
             tag, r = f.result(); tot["states"] += r.distinct; tot["transitions"] += r.generated
